@@ -555,9 +555,9 @@ def run(ctx) -> None:
     else:
         shorts = SHORT_STREAMS
     jobs = [("short", c, 0) for c in shorts]
-    jobs += [("pairs", None, ctx.n(4, 40)), ("pairs", None, ctx.n(4, 40))]
-    jobs += [("random", None, ctx.n(120, 1500)), ("random", None, ctx.n(120, 1500))]
-    jobs += [("udp", None, ctx.n(300, 3000)), ("big", None, 0)]
+    jobs += [("pairs", None, ctx.n(6, 40)), ("pairs", None, ctx.n(6, 40))]
+    jobs += [("random", None, ctx.n(200, 1500)), ("random", None, ctx.n(200, 1500))]
+    jobs += [("udp", None, ctx.n(400, 3000)), ("big", None, 0)]
     parallel(ctx, _dispatch, jobs, procs=ctx.n(8, 16))
     ctx.notes["budget"] = f"{A_STEPS} + {B_STEPS}*octets_fed_so_far sys.monitoring steps per data_received / datagram_received call"
 
